@@ -425,7 +425,7 @@ def obligations(tier):
             Rr = R if sym else I["A"].shape[1]
             rec = {}
             real_proj, real_parafac = _p2._compute_projections, _p2.parafac
-            def proj_stub(ts, fs_, svd):
+            def proj_stub(ts, fs_, svd, **kw):
                 rec["proj_fs"] = list(fs_)
                 if sym:
                     rec["Pn"] = [G.opaque_tensor("PNEW", [G.axis_sizes(t)[0], G.axis_sizes(fs_[1])[0]], t.dtype) for t in ts]
@@ -471,7 +471,7 @@ def obligations(tier):
                         err=S.input("err", []), lserr=S.input("lserr", []), nrm=S.input("nrm", []))
         def ls_call(I, nnm=nnm):
             rec = {}
-            def proj_stub(ts, fs_, svd):
+            def proj_stub(ts, fs_, svd, **kw):
                 rec["proj_factors"] = list(fs_)
                 return list(I["Pn"])
             def err_stub(ts, decomposition, *a, **k):
